@@ -631,6 +631,16 @@ func (nfs *Nfs) NFSPROC3_RENAME(args nfstypes.RENAME3args) nfstypes.RENAME3res {
 			done = true
 			break
 		}
+		if dir.IllegalName(args.To.Name) {
+			errRet(op, &reply.Status, nfstypes.NFS3ERR_INVAL)
+			done = true
+			break
+		}
+		if uint64(len(args.To.Name)) > dir.MAXNAMELEN {
+			errRet(op, &reply.Status, nfstypes.NFS3ERR_NAMETOOLONG)
+			done = true
+			break
+		}
 
 		if fh.Equal(args.From.Dir, args.To.Dir) {
 			dipfrom = op.GetInodeFh(args.From.Dir)
